@@ -8,7 +8,7 @@
    the only standing hypothesis is that pool names are distinct (they are resource names). *)
 From Coq Require Import List NArith Arith Bool Sorting.Permutation Sorting.Sorted.
 From Verif.Common Require Import Prefix.
-From Verif.C39 Require Import Model Spec Order Proofs Reconcile History TrieLink Faults Release Conditions ConditionsProofs.
+From Verif.C39 Require Import Model Spec Order Proofs Reconcile History TrieLink Faults Release Conditions ConditionsProofs Whole Cases.
 Import ListNotations.
 
 (* (1) After a reconcile no two allocatable pools overlap. *)
@@ -250,6 +250,20 @@ Theorem c39_faults_history_no_delete_with_blocks : forall tf s p hs,
 Proof. exact history_f_no_delete_with_blocks. Qed.
 Print Assumptions c39_faults_history_no_delete_with_blocks.
 
+(* ---- model meets spec, whole-case form: along EVERY history from the empty cluster (any API operations, every
+   pass with any failing writes) the oracle that check_rounds applies to the implementation accepts every pass of the
+   model (repaired order, i.e. the code as it is in the tree now) *)
+Theorem c39_history_model_meets_spec : forall hs blocks0, Forall hopf_wf hs ->
+  passes_ok true (mkState [] blocks0) hs = true.
+Proof. exact history_model_meets_spec. Qed.
+Print Assumptions c39_history_model_meets_spec.
+
+(* for the repaired order c39_model_meets_spec needs nothing but distinct names *)
+Theorem c39_model_meets_spec_fixed : forall pools blocks, NoDup (map p_name pools) ->
+  ok_round pools blocks (ro_pools (reconcile true pools blocks)) = true.
+Proof. exact model_meets_spec_fixed. Qed.
+Print Assumptions c39_model_meets_spec_fixed.
+
 (* ---- a pool is never released while a block exists in it.  One step of any history (any API operation —
    disable, enable, repeated delete requests, a foreign finalizer going away, other pools and blocks coming and
    going — or a pass with ANY failing writes) keeps a pool that carries the controller's finalizer, with its CIDR,
@@ -310,6 +324,16 @@ Proof.
   - intros st H. apply abs_has_condition; auto.
 Qed.
 Print Assumptions c39_conditions_refine.
+
+(* ---- handleErr: a failed pass is re-queued while the retry budget (5) lasts *)
+Theorem c39_handle_err_meets_spec : forall failed requeues,
+  let '(a, f) := qobs (handle_err failed requeues) in ok_handle failed requeues a f = true.
+Proof. exact handle_err_meets_spec. Qed.
+Print Assumptions c39_handle_err_meets_spec.
+
+Theorem c39_failed_pass_requeued : forall requeues, (requeues < 5)%nat -> handle_err true requeues = QRequeue.
+Proof. exact failed_pass_requeued. Qed.
+Print Assumptions c39_failed_pass_requeued.
 
 (* ---- poolSortFunc: the sorted permutation is unique when names are distinct, so the model's
    insertion sort and Go's slices.SortFunc (any correct sort) return the same list *)
